@@ -20,6 +20,8 @@ import step
 import rb
 import idx2
 import fin
+import prog
+import repl
 import engine as _engine
 
 
@@ -172,7 +174,7 @@ PROPS = {
                        "covariance blocks precede every solver reset. Numerical equivalence with the whitened problem is not decided.",
     },
     "C14": {
-        "rules": [sib.rule_removed_pairing, sib.rule_obs_partition, mpt.rule_mpt_c14, tab.rule_rm_points, tab.rule_cluster_casts,
+        "rules": [prog.rule_progress, sib.rule_removed_pairing, sib.rule_obs_partition, mpt.rule_mpt_c14, tab.rule_rm_points, tab.rule_cluster_casts,
                   lazy.rule_lazy_cascade, sib.rule_revision_lookup_siblings, step_rule, scratch_rule],
         "explanation": "R-PAIR P1: every set_unused_xy/z in LocalNetwork is post-dominated by removed(id, code) with a reason code of the "
                        "same axis class; partition: revision_observations puts every observation on exactly one of the used / removed "
@@ -181,7 +183,7 @@ PROPS = {
                        "Equality of results with the reduced input is not decided.",
     },
     "C16": {
-        "rules": [idx.rule_idx_c16, mpt.rule_mpt_c16, step_rule, scratch_rule, idx2.rule_idx2_sparse],
+        "rules": [repl.rule_replica, idx.rule_idx_c16, mpt.rule_mpt_c16, step_rule, scratch_rule, idx2.rule_idx2_sparse],
         "explanation": "R-IDX over SparseMatrixOrdering/ReverseCuthillMcKee/Envelope::set (perm: P->U, invp: U->P, graph nodes U, "
                        "envelope rows P); R-MPT: inverse_permutaion() follows algorithm() on every path of SparseMatrixOrdering::reset, "
                        "the ordering precedes Envelope::set, cholDec precedes solve. Numerical equality with dense LDL' is not decided.",
@@ -229,7 +231,7 @@ PROPS = {
                        "R-DEAD: status chains (fixed / constrained / free) have no dead branch. That re-adjustment of the exported file needs no iteration is not decided.",
     },
     "C15": {
-        "rules": [dim.rule_dim, pair.rule_memrep, step_rule, scratch_rule, lazy.rule_lazy_conditional_fields],
+        "rules": [repl.rule_replica, dim.rule_dim, pair.rule_memrep, step_rule, scratch_rule, lazy.rule_lazy_conditional_fields],
         "explanation": "R-DIM: in every lib/matvec function touching elements of two or more operands a dimension comparison whose failing "
                        "branch throws Exception::BadRank (or a resize / a checking callee) dominates the first element access; R-PAIR P3: "
                        "MemRep's owning pointer comes only from new[], null or a moved-from rvalue, copies allocate and copy exactly the "
@@ -246,7 +248,7 @@ PROPS = {
                        "Round trips are numerical and not decided; deg2gon reads its fields through an istringstream and is not modelled.",
     },
     "C19": {
-        "rules": [tab.rule_g3_visitors, lazy.rule_lazy_chain, lazy.rule_lazy_adj, tab.rule_algorithms, fsm2.rule_dataparser,
+        "rules": [prog.rule_progress, repl.rule_replica, tab.rule_g3_visitors, lazy.rule_lazy_chain, lazy.rule_lazy_adj, tab.rule_algorithms, fsm2.rule_dataparser,
                   esc.rule_esc_g3, pair.rule_newdelete, dead.rule_dead_g3, step_rule, scratch_rule, tab.rule_who_depends, fin.rule_fin_c19, pair.rule_ownership_handover, pair.rule_no_use_after_handover, rec.rule_stream_validators, sib.rule_g3_scale_siblings],
         "explanation": "R-VIS V2 every g3 visitor covers all concrete g3 observation classes; R-LAZY stage chain of g3::Model and "
                        "typestate of Adj; R-TAB T1 algorithm names; R-FSM DataParser automaton (no silent error, absorbing error state, "
